@@ -306,7 +306,7 @@ inline void crash_handler(int sig) {
   if (g_failout[0]) {
     int fd = ::open(g_failout, O_WRONLY | O_CREAT | O_TRUNC, 0644);
     if (fd >= 0) {
-      char buf[64]; int n = std::snprintf(buf, sizeof buf, "# vf-tape v1 crash signal=%d\n", sig); if (::write(fd, buf, n) < 0) {}
+      char buf[256]; int n = std::snprintf(buf, sizeof buf, "# vf-tape v1 property=%s target=%s crash signal=%d\n", vf_info.property, vf_info.target, sig); if (n > (int) sizeof buf - 1) n = (int) sizeof buf - 1; if (::write(fd, buf, n) < 0) {}
       for (size_t i = 0; i < g_current.size(); ++i) { n = std::snprintf(buf, sizeof buf, "%u\n", g_current[i]); if (::write(fd, buf, n) < 0) {} }
       ::close(fd);
     }
